@@ -31,6 +31,9 @@ type racePipe struct {
 	DecJ    uint   `json:"dec_jobs"`
 	Verbose uint   `json:"verbosity"`
 	Listen  bool   `json:"listeners"`
+	From    int    `json:"from,omitempty"`    // decode a block range (tasks that skip their block share the batch with tasks that decode)
+	To      int    `json:"to,omitempty"`      //
+	Damage  bool   `json:"damaged,omitempty"` // decode a damaged copy: the error / cancel path of the tasks runs under the race detector
 }
 
 type raceWork struct {
@@ -77,11 +80,35 @@ func runPipe(p *racePipe, data []byte, events *int64) (stream, back []byte, err 
 		return nil, nil, e
 	}
 	stream = sink.Bytes()
+	want := data
+	if p.From > 0 || p.To > 0 {
+		B := int(p.Cfg.BlockSize)
+		lo, hi := 0, len(data)
+		if p.From > 0 {
+			lo = min((p.From-1)*B, len(data))
+		}
+		if p.To > 0 {
+			hi = max(lo, min((p.To-1)*B, len(data)))
+		}
+		want = data[lo:hi]
+	}
 	rctx := map[string]any{"jobs": p.DecJ}
+	if p.From > 0 {
+		rctx["from"] = p.From
+	}
+	if p.To > 0 {
+		rctx["to"] = p.To
+	}
+	in := stream
+	if p.Damage {
+		in = append([]byte(nil), stream...)
+		in[len(in)*3/5] ^= 0x20
+		in[len(in)*3/5+1] ^= 0x01
+	}
 	if p.Verbose > 0 {
 		rctx["verbosity"] = p.Verbose
 	}
-	r, e := kio.NewReaderWithCtx(&kz.Source{Data: stream}, rctx)
+	r, e := kio.NewReaderWithCtx(&kz.Source{Data: in}, rctx)
 	if e != nil {
 		return stream, nil, e
 	}
@@ -90,8 +117,22 @@ func runPipe(p *racePipe, data []byte, events *int64) (stream, back []byte, err 
 	}
 	rr := kz.ReadAll(r, []int{70000}, 0, len(data)+1<<20)
 	r.Close()
+	if p.Damage {
+		// whatever was delivered before the error must be a prefix of the original; the caller compares "back" with the data,
+		// so hand the data back when the outcome is acceptable
+		if len(rr.Out) <= len(data) && bytes.Equal(rr.Out, data[:len(rr.Out)]) && (rr.Err != nil || len(rr.Out) == len(data)) {
+			return stream, data, nil
+		}
+		return stream, rr.Out, fmt.Errorf("damaged stream: %d bytes returned, err=%v", len(rr.Out), rr.Err)
+	}
 	if rr.Err != nil {
 		return stream, rr.Out, rr.Err
+	}
+	if p.From > 0 || p.To > 0 {
+		if bytes.Equal(rr.Out, want) {
+			return stream, data, nil
+		}
+		return stream, rr.Out, nil // reported as "decompressed bytes differ"
 	}
 	return stream, rr.Out, nil
 }
@@ -311,7 +352,7 @@ func init() {
 
 func c18(run *core.Run, replay string) {
 	run.SetRule("race-detector build of the harness and of /repo/v2 (go build -race -tags verif); K concurrent compress+decompress pipelines covering all 19 transforms and 9 entropy codecs (shared static tables in use at once), " +
-		"jobs 1..16 inside each, a > 4 MiB BWT block decoded with several jobs (parallel inverse BWT workers), listeners attached with verbosity 5, one FRESH process per codec whose first use of that codec is made by 4 goroutines at once (lazy initialisers), scheduling perturbed through the hand-off hooks (yields / sleeps), repeated rounds; " +
+		"jobs 1..16 inside each, a > 4 MiB BWT block decoded with several jobs (parallel inverse BWT workers), listeners attached with verbosity 5, decoders with block ranges starting inside a batch, decoders of damaged streams (error / cancel paths), one FRESH process per codec whose first use of that codec is made by 4 goroutines at once (lazy initialisers), scheduling perturbed through the hand-off hooks (yields / sleeps), repeated rounds; " +
 		"every stream and every decompressed output is compared with the isolated run; the race log (GORACE halt_on_error=0 log_path) is parsed, reports de-duplicated by stack pair and attributed: a report with a frame in kanzi-go/v2 is a violation. " +
 		"non-trivial = a pipeline run with jobs > 1 or next to other pipelines; distinct = (pipeline config, round)")
 	run.Assume("the race detector only sees executed interleavings; reports whose frames are all in the harness would be harness bugs and are listed separately")
@@ -345,6 +386,13 @@ func c18(run *core.Run, replay string) {
 		pipes = append(pipes, racePipe{Cfg: kz.Cfg{Transform: ch, Entropy: "NONE", BlockSize: 262144, Jobs: uint(3 + i), Checksum: 32}, Shape: []string{"elfx86", "text", "pe"}[i], Size: 4*262144 + 1000, DecJ: 3})
 	}
 	pipes = append(pipes, racePipe{Cfg: kz.Cfg{Transform: "TEXT", Entropy: "HUFFMAN", BlockSize: 1024, Jobs: 16, Checksum: 64}, Shape: "text", Size: run.Pick(24000, 200000), DecJ: 64, Listen: true, Verbose: 5})
+	// block ranges starting inside a batch and spanning several batches; damaged streams (error / cancel paths)
+	for i, cf2 := range [][2]string{{"NONE", "NONE"}, {"LZ", "HUFFMAN"}, {"BWT", "ANS0"}, {"TEXT", "FPAQ"}} {
+		for k, fr := range [][2]int{{2, 0}, {6, 15}, {3, 9}} {
+			pipes = append(pipes, racePipe{Cfg: kz.Cfg{Transform: cf2[0], Entropy: cf2[1], BlockSize: 4096, Jobs: uint(2 + i), Checksum: []uint{32, 0}[k%2]}, Shape: shapes[(i+k)%len(shapes)], Size: 18*4096 + 100, DecJ: uint(3 + (i+k)%6), From: fr[0], To: fr[1], Listen: k == 1, Verbose: uint(5 * (k % 2))})
+		}
+		pipes = append(pipes, racePipe{Cfg: kz.Cfg{Transform: cf2[0], Entropy: cf2[1], BlockSize: 4096, Jobs: uint(2 + i), Checksum: 32}, Shape: shapes[i%len(shapes)], Size: 14*4096 + 100, DecJ: uint(3 + i), Damage: true})
+	}
 	wk := &raceWork{Pipes: pipes, Rounds: run.Pick(2, 8), Seed: S, Width: 16}
 	// several UTF / TEXT pipelines side by side (package-level state of a codec is only exposed when two instances overlap)
 	for i := 0; i < 4; i++ {
